@@ -112,6 +112,26 @@ def uniqueChunked (blocks : List (List Nat)) : List URow :=
 /-- NumPy's answer on the whole array -/
 def uniqueSpec (xs : List Nat) : List URow := uniqueInternal (rowsOf 0 xs)
 
+/-- `return_inverse`: `((ar[:, None] == values[None, :]) * arange(len(values))).sum(axis=1)` for one element `v` -/
+def inverseOf (u : List Nat) (v : Nat) : Nat :=
+  sum ((List.range u.length).map (fun j => if u.getD j 0 = v then j else 0))
+
+/-- the weight falling into bin `v` -/
+def wsum (xs : List Nat) (ws : List Int) (v : Nat) : Int :=
+  isum ((xs.zip ws).filterMap (fun p => if p.1 = v then some p.2 else none))
+
+
+/-- weighted `np.bincount(xs, weights=ws, minlength=m)` -/
+def bincountW (xs : List Nat) (ws : List Int) (minlength : Nat) : List Int :=
+  let n := max minlength (if xs.isEmpty then 0 else maxList xs + 1)
+  (List.range n).map (fun v => isum ((xs.zip ws).filterMap (fun p => if p.1 = v then some p.2 else none)))
+
+/-- `_bincount_agg` on weighted partial results -/
+def bincountAggW (bs : List (List Int)) : List Int :=
+  let n := maxList (bs.map List.length)
+  (List.range n).map (fun i => isum (bs.map (fun b => b.getD i 0)))
+
+
 /-! ### nonzero / count_nonzero / isin -/
 
 /-- per chunk: local positions of the non-zeros plus the chunk's offset -/
